@@ -78,7 +78,12 @@ impl<T: FileReader> RVParser<T> {
             }
             Err(err) => diags.push(DiagnosticItem::from(*err)),
         }
-        diags.sort();
+        // Order by file name and position. The file ids are random, so
+        // ordering by them would change the output from run to run.
+        diags.sort_by(|a, b| {
+            (self.reader.get_filename(a.file), &a.range)
+                .cmp(&(self.reader.get_filename(b.file), &b.range))
+        });
         diags
     }
 
